@@ -71,6 +71,114 @@ def kind_of_scalar(x):
 # ------------------------------------------------------------------------------------------------
 #  buffer states
 
+class LoopCtx:
+    """bookkeeping of one generically executed loop"""
+
+    def __init__(self, it, n):
+        self.it = it
+        self.itname = next(iter(it.atoms()))
+        self.n = n
+        self.paths = []          # [(tf, [(buf, offset, value)])]
+        self.cur = None
+        self.written = {}        # buf id -> buf
+
+    def begin_path(self, tf):
+        self.cur = (tf, [])
+        self.pushed = 0
+        self.dead = False
+
+    def end_path(self):
+        for _ in range(self.pushed):
+            CTX.pop(1)
+        self.pushed = 0
+        if not self.dead:
+            self.paths.append(self.cur)
+        self.cur = None
+
+    def decide_int(self, c):
+        """an integer case distinction on the loop variable (e.g. it == 0): decided per path, like a data branch"""
+        tf = self.cur[0]
+        if tf.pos < len(tf.script):
+            d = tf.script[tf.pos]
+        else:
+            d = True
+            tf.script.append(True)
+        tf.pos += 1
+        cc = c if d else c.neg()
+        tf.conds.append(cc)
+        CTX.push([cc])
+        self.pushed += 1
+        if CTX.infeasible():
+            self.dead = True
+        return d
+
+    def record_write(self, arr, key, value):
+        """arr[key] = value inside the body; key must be it + c on a 1-D whole-array view"""
+        if arr.ndim != 1 or not arr._view.is_identity_of(arr.buf.shape):
+            raise OutOfReach('loop body writes through a view / to an n-d array')
+        kk = I(key)
+        if not (kk.is_affine() and kk.coeff(self.itname) == 1):
+            raise OutOfReach('loop body writes at index %s (not loop variable + constant)' % (kk,))
+        off = kk - self.it
+        if self.itname in off.atoms():
+            raise OutOfReach('loop body writes at index %s' % (kk,))
+        if not is_scalar(value):
+            raise OutOfReach('loop body writes a non-scalar')
+        self.cur[1].append((arr.buf, off, to_value(value, arr.kind)))
+        self.written[arr.buf.id] = arr.buf
+
+    def commit(self):
+        from .reals import subst_ints
+        itname, n = self.itname, self.n
+        bybuf = {}
+        for tf, writes in self.paths:
+            conds = list(tf.conds)
+            seen = set()
+            for buf, off, val in writes:
+                if buf.id in seen:
+                    raise OutOfReach('loop body writes the same array twice in one iteration')
+                seen.add(buf.id)
+                bybuf.setdefault(buf.id, (buf, off, []))
+                if not I(bybuf[buf.id][1]).same(off):
+                    raise OutOfReach('loop body writes at different offsets on different paths')
+                bybuf[buf.id][2].append((conds, val))
+        for bid, (buf, off, alts) in bybuf.items():
+            if len(alts) != len(self.paths):
+                raise OutOfReach('loop body does not write the array on every path')
+            # put a path without integer conditions last (it becomes the default of the ite chain)
+            alts.sort(key=lambda cv: 0 if any(isinstance(cc, ICond) for cc in cv[0]) else 1)
+
+            def cond_fn(bufidx, off=off):
+                t = I(bufidx[0]) - off
+                if CTX.decide(t >= 0) and CTX.decide(t < n):
+                    return True, None, t
+                return False, None, None
+
+            def val_fn(bufidx, t, alts=alts):
+                m = {itname: t}
+                res = None
+                for conds, val in reversed(alts):
+                    v = subst_ints(R.of(val), m) if isinstance(val, (R, B)) else R.of(I(val).subst(m))
+                    if res is None and not any(isinstance(cc, ICond) for cc in conds):
+                        res = v
+                        continue
+                    c = B.const(True)
+                    skip = False
+                    for cc in conds:
+                        if isinstance(cc, ICond):
+                            if not CTX.decide(cc.subst(m)):
+                                skip = True
+                                break
+                        else:
+                            c = c & subst_ints(cc, m)
+                    if not skip:
+                        res = R.ite(c, v, res)
+                if res is None:
+                    raise OutOfReach('no loop path applies')
+                return res
+            buf.write(cond_fn, val_fn, 'loop-map')
+
+
 class FnState:
     __slots__ = ('fn', 'uid')
     _n = itertools.count()
@@ -447,9 +555,43 @@ class SymNDArray:
         raise OutOfReach('len() of an array with symbolic length %s' % n)
 
     def __iter__(self):
+        n0 = I(self.shape[0]) if self.ndim >= 1 else None
+        if n0 is not None and not n0.is_const() and self.ndim == 1:
+            return self._generic_iteration()
         n = len(self)
-        for i in range(n):
-            yield self[i]
+        return (self[i] for i in range(n))
+
+    def _generic_iteration(self):
+        """`for x in arr` with a symbolic trip count: the body is executed on ONE generic iteration `it`
+        (0 <= it < n), once per data-dependent path through the body; the writes `buf[it + c] = v` it performs are
+        turned into parametric stores  (for all it)  merged over the paths.  Side conditions (checked): the body
+        writes only at index it+c and never reads a buffer it writes (independent-map loops, DESIGN 3.4)."""
+        from .ints import TraceFork
+        n = I(self.shape[0])
+        k = next(_probe_counter)
+        it = IExpr.sym('it!%d' % k)
+        loop = LoopCtx(it, n)
+        pending = [[]]
+        nlev = CTX.push([it >= 0, it < n])
+        try:
+            while pending:
+                script = pending.pop()
+                tf = TraceFork(script)
+                old_tf, old_loop = CTX.trace_fork, CTX.loop
+                CTX.trace_fork, CTX.loop = tf, loop
+                loop.begin_path(tf)
+                try:
+                    yield self.at((it,))
+                finally:
+                    CTX.trace_fork, CTX.loop = old_tf, old_loop
+                loop.end_path()
+                for i in range(tf.fresh_from, len(tf.script)):
+                    pending.append(tf.script[:i] + [False])
+                if len(loop.paths) > 64:
+                    raise OutOfReach('more than 64 paths through a loop body')
+        finally:
+            CTX.pop(nlev)
+        loop.commit()
 
     def __bool__(self):
         s = iprod(self.shape)
@@ -461,6 +603,8 @@ class SymNDArray:
     def at(self, idx):
         """live element read (tuple of ints / IExpr)"""
         idx = tuple(I(i) for i in idx)
+        if CTX.loop is not None and self.buf.id in CTX.loop.written:
+            raise OutOfReach('loop body reads an array that the loop writes (not an independent map)')
         if self.blocks is not None and self.buf.state is None:
             return self._blocks_at(idx)
         return self.buf.state.get(self._view.fwd(idx))
@@ -568,6 +712,11 @@ class SymNDArray:
 
     def __setitem__(self, key, value):
         k = key if isinstance(key, tuple) else (key,)
+        loop = CTX.loop
+        if loop is not None:
+            if len(k) == 1 and is_int_like(k[0]) and loop.itname in I(k[0]).atoms():
+                return loop.record_write(self, k[0], value)
+            raise OutOfReach('array write inside a generically executed loop body that is not x[loop variable + c] = scalar')
         if len(k) == 1 and isinstance(k[0], SymNDArray) and k[0].kind == 'bool':
             return self._mask_set(k[0], value)
         if any(isinstance(x, (SymNDArray, list)) for x in k):
